@@ -146,12 +146,17 @@ func (c *SymbolNode) SetTokenType(value int) {
 //	Returns: the symbol this node represents
 func (c *SymbolNode) Ancestry() []rune {
 	if c.ancestry == nil || len(c.ancestry) == 0 {
+		var ancestry []rune
 		if c.parent != nil {
-			c.ancestry = c.parent.Ancestry()
+			// Copy the parent's cached text: appending to it would share its backing array between siblings
+			parentAncestry := c.parent.Ancestry()
+			ancestry = make([]rune, len(parentAncestry), len(parentAncestry)+1)
+			copy(ancestry, parentAncestry)
 		}
 		if c.character != 0 {
-			c.ancestry = append(c.ancestry, c.character)
+			ancestry = append(ancestry, c.character)
 		}
+		c.ancestry = ancestry
 	}
 	return c.ancestry
 }
